@@ -1,5 +1,6 @@
 import Bip39V.Gen.Code.fromEntropy
 import Bip39V.Lemmas.GoSem
+import Bip39V.Props.Refine.LanguageList
 /-! Refinement for `fromEntropy`: the function body regenerated from entropy.go
 (`Gen/Code/fromEntropy.lean`) computes exactly what the hand-written model computes.  (The proofs
 step through the statements with `bind_ok`/`bind_panic`; see the note in `Lemmas/GoSem.lean` on why
@@ -68,7 +69,7 @@ theorem refine_fromEntropy (W : World) (e : Bytes) (wordLen ℓ : Int) (st : St)
       generalize beNat e <<< cs + beNat checksum / 1 <<< (8 - cs) = entInt
       by_cases hneg : wordLen < 0
       · rw [bind_panic (makeStrs_neg hneg st), if_pos hneg]
-      · rw [bind_ok (makeStrs_nonneg hneg st), if_neg hneg]
+      · rw [bind_ok (makeStrs_nonneg hneg st), if_neg hneg, bind_ok (refine_Language_list W ℓ st)]
         have h2048 : ¬ ((2048 : Nat) = 0 ∧ wordLen.toNat ≠ 0) := by omega
         rw [if_neg h2048]
         have hsub : subI wordLen 1 = ((wordLen.toNat : Nat) : Int) - 1 := by
@@ -76,10 +77,9 @@ theorem refine_fromEntropy (W : World) (e : Bytes) (wordLen ℓ : Int) (st : St)
         have hfuel : (((wordLen.toNat : Nat) : Int) - 1 - 0 + 1).toNat = wordLen.toNat := by omega
         unfold forDown
         rw [hsub, hfuel]
-        rw [forDownAux_peel (langList ℓ) _
-          (by intro i n idx wl st' hi; exact body_fromEntropy (langList ℓ) i n wl st' hi)
+        rw [forDownAux_peel (Model.list ℓ) _
+          (by intro i n idx wl st' hi; exact body_fromEntropy (Model.list ℓ) i n wl st' hi)
           _ (by intros; rfl) wordLen.toNat entInt bigZero (List.replicate wordLen.toNat []) st (by simp)]
-        unfold langList
         cases peelWords (list ℓ) 2047 2048 wordLen.toNat entInt with
         | none => rfl
         | some ws =>
